@@ -14,7 +14,7 @@ from ..common import Verdict
 from . import c08
 
 TARGETS = ["types.ts", "commands.ts", "events.ts", "index.ts", ".typecache", "dependency-graph.txt", "dependency-graph.dot", "<output-dir>"]
-KINDS = ["open-EACCES", "write-ENOSPC", "open-SIGKILL", "EISDIR", "ENOTDIR", "fsize-limit-1KiB", "fsize-limit-2KiB", "file-in-its-place"]
+KINDS = ["open-EACCES", "write-ENOSPC", "open-SIGKILL", "EISDIR", "ENOTDIR", "fsize-limit-1KiB", "fsize-limit-2KiB", "file-in-its-place", "dangling-symlink"]
 PHASES = ["first-run", "after-edit", "edit-then-revert"]
 
 
@@ -22,6 +22,8 @@ def scenario(a):
     cli, drv, target, kind, phase, mode, path, seed = a[:8]
     if kind in ("ENOTDIR", "file-in-its-place") and target != "<output-dir>":
         return {"skip": "ENOTDIR / file-in-its-place only apply to the output directory"}
+    if target == "<output-dir>" and kind == "dangling-symlink":
+        return {"skip": "n/a"}
     if target == "<output-dir>" and kind not in ("ENOTDIR", "open-EACCES", "file-in-its-place"):
         return {"skip": "n/a"}
     if kind.startswith("fsize-limit") and target != "types.ts":
@@ -72,7 +74,16 @@ def scenario(a):
                 json.dump(c_, open(cfgp, "w"))
         tpath = out if target == "<output-dir>" else os.path.join(out, target)
         obstacle = None
-        if kind == "EISDIR":
+        if kind == "dangling-symlink":
+            # the file's path is taken by a symbolic link whose target directory does not exist: opening it for writing fails with ENOENT
+            if os.path.lexists(tpath):
+                os.unlink(tpath)
+            os.makedirs(os.path.dirname(tpath), exist_ok=True)
+            os.symlink(os.path.join(root, "no-such-dir", os.path.basename(tpath)), tpath)
+            obstacle = ("link", tpath)
+            rf = common.run(argv(), cwd=root, hash_seed=seed % 97 + 1)
+            info["injected"] = True
+        elif kind == "EISDIR":
             if os.path.isfile(tpath):
                 os.unlink(tpath)
             os.makedirs(tpath, exist_ok=True)
@@ -133,6 +144,9 @@ def scenario(a):
         # remove the obstacle
         if obstacle and obstacle[0] == "dir":
             shutil.rmtree(obstacle[1], ignore_errors=True)
+        if obstacle and obstacle[0] == "link":
+            if os.path.islink(obstacle[1]):
+                os.unlink(obstacle[1])
         if obstacle and obstacle[0] == "file":
             if os.path.isfile(obstacle[1]):
                 os.unlink(obstacle[1])
